@@ -302,6 +302,7 @@ func verifC18keys(nk int) []string {
 
 // VerifC18_LeveldbHistory: histories of Put/Get/Delete/Iterate on the real
 // statestore/leveldb store over the model driver (driver errors: none).
+// Values have 2 bytes (value lengths: VerifC18_LeveldbValueLengths).
 func VerifC18_LeveldbHistory() {
 	steps := zzverif.Param("steps", 3, 3)
 	nk := zzverif.Param("keys", 3, 4)
@@ -309,6 +310,24 @@ func VerifC18_LeveldbHistory() {
 		// thorough tier only: longer histories over fewer keys
 		steps, nk = 4, 2
 	}
+	verifC18history(steps, nk, 2, 2)
+	zzverif.Reach("C18-leveldb-history")
+}
+
+// VerifC18_LeveldbValueLengths: shorter histories over fewer keys in which
+// every Put writes a value of 0..2 bytes chosen per Put: a key holding a value
+// of length 0 is a present key (Get succeeds and gives the empty value, Iterate
+// visits it), and overwriting changes the length.
+func VerifC18_LeveldbValueLengths() {
+	steps := zzverif.Param("steps", 2, 3)
+	nk := zzverif.Param("keys", 2, 3)
+	verifC18history(steps, nk, 0, 2)
+	zzverif.Reach("C18-leveldb-value-lengths")
+}
+
+// verifC18history: `steps` operations over `nk` keys; every Put writes a value
+// of minv..maxv bytes (the length is chosen per Put when minv < maxv).
+func verifC18history(steps, nk, minv, maxv int) {
 	zzverif.Unwind(64)
 
 	db := &verifC18db{}
@@ -321,7 +340,11 @@ func VerifC18_LeveldbHistory() {
 		switch zzverif.Choose("op", 4) {
 		case 0: // Put
 			k := keys[zzverif.Choose("k", nk)]
-			v := zzverif.BytesN("val", 2)
+			vlen := maxv
+			if minv < maxv {
+				vlen = minv + zzverif.Choose("vlen", maxv-minv+1)
+			}
+			v := zzverif.BytesN("val", vlen)
 			err := st.Put(k, &verifC18val{b: v})
 			zzverif.Assert(err == nil, "Put succeeds")
 			ref.put(k, v)
@@ -344,7 +367,6 @@ func VerifC18_LeveldbHistory() {
 			verifC18iterate(st, db, ref, false)
 		}
 	}
-	zzverif.Reach("C18-leveldb-history")
 }
 
 // VerifC18_LeveldbIterate: one Iterate over a store filled with arbitrary keys;
@@ -388,16 +410,17 @@ func verifC18iterate(st storage.StateStorer, db *verifC18db, ref *verifC18ref, d
 		zzverif.Assert(!stopped && !failed, "no callback after stop or error")
 		seenK = append(seenK, verifC18copy(k))
 		seenV = append(seenV, verifC18copy(v))
+		// the callback's two results are independent: it may ask to stop and
+		// return an error at the same time (the error must still reach the caller)
 		cbErr, cbStop := zzverif.Bool("cb-error"), zzverif.Bool("cb-stop")
-		if cbErr {
-			failed = true
-			return false, verifC18errCallback
-		}
 		if cbStop {
 			stopped = true
-			return true, nil
 		}
-		return false, nil
+		if cbErr {
+			failed = true
+			return cbStop, verifC18errCallback
+		}
+		return cbStop, nil
 	})
 
 	// visited sequence = the matching keys in ascending byte order, cut where
